@@ -269,9 +269,11 @@ def stored_order_rules(r, lib):
     c15.check_merge(r, lib, only_order=True)
     # the attribute vector is not reordered anywhere else
     writers = []
+    from .common import look_through_private
     for b in lib.real_bodies():
         if "std::clone::Clone" in b.name or "std::fmt::Debug" in b.name:
             continue
+        b = look_through_private(lib, b)
         for s in b.assigns():
             pl = b.canon(s.node["place"])
             fs = mir.place_fields(pl)
@@ -299,16 +301,22 @@ def stored_order_rules(r, lib):
 
 def position_rules(r, lib):
     writes = []
+    from .common import look_through_private
     for b in lib.real_bodies():
         if "std::clone::Clone" in b.name or "std::fmt::Debug" in b.name:
             continue
+        b = look_through_private(lib, b)
         for s in b.assigns():
             rv = s.node["rv"]
             if rv["k"] == "agg" and rv.get("adt") == "element::Element":
-                from .common import element_update
+                from .common import element_update, PseudoSite
                 upd = element_update(b, s)
                 if upd is not None and "position" not in upd:
                     continue    # struct update that keeps the position
+                if upd is not None:
+                    # `Element { position: v, ..child }` writes the position of that child: judged like an assignment
+                    writes.append((b, PseudoSite(s, {"k": "assign", "place": s.node["place"], "rv": {"k": "use", "op": upd["position"]}, "span": s.node.get("span", {})})))
+                    continue
                 t = strip(term_of(b, rv["ops"][rv["fields"].index("position")]))
                 ok = t[0] == "agg" and t[2] == "None" and upd is None
                 r.ob("R9.4.position-initially-none", b.name, ok, "a freshly constructed element has no position" if ok else
